@@ -11,7 +11,11 @@ import (
 	"go/ast"
 	"go/parser"
 	"go/token"
+	"os"
+	"path/filepath"
 	"sort"
+	"strings"
+	"sync"
 )
 
 var syncMethodNames = map[string]bool{
@@ -27,10 +31,17 @@ type insertion struct {
 
 // instrumentSource returns src with verifSP calls inserted, or nil if nothing was inserted / parse failed.
 func instrumentSource(relName string, src []byte) []byte {
+	out, _ := instrumentSourceKeys(relName, src)
+	return out
+}
+
+// instrumentSourceKeys also returns the site keys that received a verifSP call.
+func instrumentSourceKeys(relName string, src []byte) ([]byte, map[string]bool) {
+	keys := map[string]bool{}
 	fset := token.NewFileSet()
 	f, err := parser.ParseFile(fset, relName, src, parser.ParseComments)
 	if err != nil {
-		return nil
+		return nil, keys
 	}
 	var ins []insertion
 	// lines of synchronisation operations directly inside expression e (not inside function literals)
@@ -69,7 +80,9 @@ func instrumentSource(relName string, src []byte) []byte {
 		sort.Ints(ls)
 		text := ""
 		for _, l := range ls {
-			text += fmt.Sprintf("verifSP(%q); ", fmt.Sprintf("%s:%d", relName, l))
+			k := fmt.Sprintf("%s:%d", relName, l)
+			keys[k] = true
+			text += fmt.Sprintf("verifSP(%q); ", k)
 		}
 		ins = append(ins, insertion{fset.Position(s.Pos()).Offset, text})
 	}
@@ -103,6 +116,7 @@ func instrumentSource(relName string, src []byte) []byte {
 				// defer x.Unlock() -> defer func() { verifSP(..); x.Unlock() }()
 				if sel, ok := v.Call.Fun.(*ast.SelectorExpr); ok && syncMethodNames[sel.Sel.Name] && len(v.Call.Args) == 0 {
 					key := fmt.Sprintf("%s:%d", relName, fset.Position(v.Defer).Line)
+					keys[key] = true
 					ins = append(ins, insertion{fset.Position(v.Call.Pos()).Offset, fmt.Sprintf("func() { verifSP(%q); ", key)})
 					ins = append(ins, insertion{fset.Position(v.Call.End()).Offset, " }()"})
 				}
@@ -136,7 +150,7 @@ func instrumentSource(relName string, src []byte) []byte {
 		}
 	}
 	if len(ins) == 0 {
-		return nil
+		return nil, keys
 	}
 	sort.SliceStable(ins, func(i, j int) bool { return ins[i].off < ins[j].off })
 	var out []byte
@@ -147,5 +161,33 @@ func instrumentSource(relName string, src []byte) []byte {
 		prev = in.off
 	}
 	out = append(out, src[prev:]...)
-	return out
+	return out, keys
+}
+
+var (
+	instrSitesOnce sync.Once
+	instrSites     map[string]bool
+)
+
+// instrumentedSites: every site key of the /repo root package that the instrumenter reaches.
+func instrumentedSites() map[string]bool {
+	instrSitesOnce.Do(func() {
+		instrSites = map[string]bool{}
+		ents, _ := os.ReadDir(repoDir)
+		for _, e := range ents {
+			nm := e.Name()
+			if e.IsDir() || !strings.HasSuffix(nm, ".go") || strings.HasSuffix(nm, "_test.go") {
+				continue
+			}
+			src, err := os.ReadFile(filepath.Join(repoDir, nm))
+			if err != nil {
+				continue
+			}
+			_, ks := instrumentSourceKeys(nm, src)
+			for k := range ks {
+				instrSites[k] = true
+			}
+		}
+	})
+	return instrSites
 }
